@@ -9,7 +9,7 @@ import (
 
 func init() {
 	Register(&Scenario{Prop: "C19", Name: "progress-monotone", Run: scenC19, Weight: 1,
-		Rule: "1-3 writer replicas, one database per instance (type drawn per run); 3-14 (thorough 3-40) writes with replication under faults, far-ahead heads (one writer runs ahead while links are cut), clean restart + Load(-1); GetProgress/GetMax sampled on every open store after every kernel step must never decrease; whenever the world is at rest and a replica's log is complete: progress == max and maxLamport <= progress <= Len; non-trivial = >=3 writes, >=1 at-rest check on a replica that replicated >=1 entry (or single replica), >=20 samples"})
+		Rule: "1-3 writer replicas, one database per instance (type drawn per run); 3-14 (thorough 3-40) writes (single, or 1-3 concurrent local writers stopped at the write-path points while replication goes on) with replication under faults, far-ahead heads (one writer runs ahead while links are cut), clean restart + Load(-1); GetProgress/GetMax sampled on every open store after every kernel step must never decrease; whenever the world is at rest and a replica's log is complete: progress == max and maxLamport <= progress <= Len; non-trivial = >=3 writes, >=1 at-rest check on a replica that replicated >=1 entry (or single replica), >=20 samples"})
 }
 
 func scenC19(k *K) {
@@ -77,7 +77,19 @@ func scenC19(k *K) {
 		}
 	}
 	for i := 0; i < nops; i++ {
-		switch k.C.Weighted([]int{8, 2, 1, 1}) {
+		switch k.C.Weighted([]int{8, 2, 1, 1, 2}) {
+		case 4:
+			// concurrent local writers stopped between the log append and their status update
+			// while replication (fetch, join, end-of-replication catch-up) goes on around them
+			node := k.C.Intn(n)
+			if c.Stores[node] != nil {
+				if n > 1 && k.C.Chance(1, 2) {
+					if o := (node + 1 + k.C.Intn(n-1)) % n; c.Stores[o] != nil {
+						c.RandomWrite(o) // something to replicate meanwhile
+					}
+				}
+				c.WriteBurst(node, k.C.Range(1, 3), k.C.Chance(4, 5))
+			}
 		case 0:
 			node := k.C.Intn(n)
 			if c.Stores[node] != nil {
